@@ -697,7 +697,7 @@ def run(ctx):
     # bytes of the elements), so the nonnull-attribute check is off; everything else of ASan/UBSan stays fatal.
     v = ctx.variant(mpi="off", san=True, cflags_extra=("-fno-sanitize=nonnull-attribute",))
     exe = ctx.cc([os.path.join(vlib.TOOLS, "harness", "c08_harness.c")], os.path.join(ctx.scratch, "c08_harness"), v)
-    nh = 350 if ctx.quick else 6000
+    nh = 600 if ctx.quick else 8000
     hists = []
     if ctx.replay:
         rp = json.load(open(ctx.replay)).get("replay", {})
@@ -729,7 +729,10 @@ def run(ctx):
     mo = split_outputs(model, hists) if model is not None else None
     dist, nviol, ndis, nops = {}, 0, 0, 0
     sizes = []
+    ended = False
     for hi, (ops, exp) in enumerate(hists):
+        if ended:          # the harness died in an earlier history: nothing was executed from here on
+            break
         ctx.count_case(tuple(tuple(t) for t in ops), nontrivial=len(ops) > 2)
         nops += len(ops)
         sizes.append(len(ops))
@@ -742,14 +745,15 @@ def run(ctx):
                 nviol += 1
                 if nviol <= 3:
                     upto = ops[:li] if li <= len(ops) else ops
-                    what = "end of output (crash?)" if got[li] is None else got[li][:200]
+                    what = "end of output (crash or call that does not return)" if got[li] is None else got[li][:200]
                     detail = err[-1200:] if got[li] is None else ""
                     key = "hist-%s" % vlib.hashlib.md5(repr(upto).encode()).hexdigest()[:12]
                     ctx.violation(key, "history of %d ops: after op #%d (%s) libsc shows [%s], the reference sequence gives [%s] %s" % (
                         len(upto), li, " ".join(ops[li - 1])[:80] if 0 < li <= len(ops) else "E", what, want[li][:200], detail),
                         dict(ops=[" ".join(t) for t in upto], line=li, impl=got[li], expected=want[li], stderr=detail))
+                ended = got[li] is None
                 break
-        if mo is not None:
+        if mo is not None and not ended:
             m = mo[hi]
             for li in range(len(want)):
                 if got[li] != m[li]:
